@@ -11,6 +11,9 @@ THEOREMS = [
     "Remoc.Link.emit_progress",
     "Remoc.Link.ports_frame_nonempty",
     "Remoc.Link.credit_conservation",
+    "Remoc.Link.shared_queue_drains",
+    "Remoc.Link.non_interference",
+    "Remoc.Link.no_slot_without_credit",
 ]
 RULE = ("same runs as C01 plus the corpus witnesses of F2/F3; predicates on the real trace at every quiescent point of a healthy "
         "transport (both sinks open, wires drained): no send/port batch pending while the receiver is waiting with nothing buffered; "
@@ -20,7 +23,7 @@ RULE = ("same runs as C01 plus the corpus witnesses of F2/F3; predicates on the 
 TRUSTED_BASE = [
     "M_link; liveness is 'no pending operation at quiescence' + strictly decreasing measure per emitted frame",
     "wake-up of a task waiting for credits and scheduler fairness are outside the model (checked only by the harness's quiescence detector)",
-    "non-interference between ports is checked by burst scripts (stalled receivers on other ports), not proved",
+    "non-interference is proved on a two-port model sharing only the bounded event queue (Link/Shared.lean); the transport queues and the wire are FIFOs drained by the dispatcher helper tasks",
 ]
 ASSUMPTIONS = ["single-threaded paused runtime: sleep(1ns) returns at quiescence", "the receiving application keeps calling recv (credits queued behind a full event queue are flushed by the next receive call)"]
 LEVEL_TEXT = ("Lean 4 theorems over M_link: the return threshold always leaves >= 4 credits reachable (all buffers >= 4), in every "
